@@ -76,7 +76,7 @@ def main():
     commits = subprocess.run(["git", "-C", "/repo", "log", "--format=%h %s", "--grep=^verif[ _]hooks"], stdout=subprocess.PIPE, text=True).stdout.strip().splitlines()
     doc = {
         "version": 1,
-        "setup_cmd": "python3 -m sim.build checked release checked+hooks release+hooks release+safe_active_fiber+debug_stress_gc",
+        "setup_cmd": "python3 -m sim.build checked release checked+hooks release+hooks release+debug_stress_gc release+safe_active_fiber+debug_stress_gc",
         "hooks": {
             "guard": "verif_hooks",
             "enable": "cargo feature `verif_hooks` of the yarel crate; the runner crate's feature `hooks` turns it on (runner built as <profile>+hooks). Checks C08/C09/C14/C15/C10 run WITHOUT the feature (their seams are public API).",
